@@ -424,11 +424,11 @@ Section Sim.
     rewrite (sfl_ratio_sc f Hf). destruct (sfl_ratio exact sold i) as [m| |]; cbn [bind map_res]; try reflexivity.
     assert (Ecalc : match option_map (sc_ratio f) m with
                     | Some r => q <- a_div exact (sr_num r) (sr_den r);; q1 <- pos_unwrap Site.ratio_to_pos q;;
-                                l <- neg_mul_pos exact loss q1;; c <- eff_cent exact l;; neg_unwrap Site.eff_cent c
+                                l <- neg_mul_pos exact loss q1;; c <- eff_cent exact l;; lez_unwrap Site.eff_cent c
                     | None => Ok 0 end
                     = match m with
                       | Some r => q <- a_div exact (sr_num r) (sr_den r);; q1 <- pos_unwrap Site.ratio_to_pos q;;
-                                  l <- neg_mul_pos exact loss q1;; c <- eff_cent exact l;; neg_unwrap Site.eff_cent c
+                                  l <- neg_mul_pos exact loss q1;; c <- eff_cent exact l;; lez_unwrap Site.eff_cent c
                       | None => Ok 0 end).
     { destruct m as [r|]; cbn [option_map sc_ratio sr_num sr_den]; [|reflexivity]. rewrite (a_div_cancel f Hf). reflexivity. }
     rewrite Ecalc. clear Ecalc.
@@ -439,7 +439,7 @@ Section Sim.
       destruct (neg_div exact sv loss) as [q| |]; cbn [bind map_res]; try reflexivity.
       rewrite (pos_mul_sc_r f Hf). destruct (pos_mul exact q sold) as [n| |]; cbn [bind map_res]; reflexivity.
     - destruct m as [r|]; cbn [option_map]; [|reflexivity].
-      destruct (neg_unwrap _ calc) as [c| |]; cbn [bind map_res]; try reflexivity.
+      destruct (negb (Qcltb calc 0)); [reflexivity|]. rename calc into c.
       cbn [sc_ratio sr_portions]. rewrite (gen_sfla_sc f Hf).
       destruct (gen_sfla exact t c (sr_portions r)); cbn [bind map_res]; reflexivity.
   Qed.
@@ -757,7 +757,8 @@ Proof.
     + bind_as Em as u0 Eu0. destruct (negb (Qcltb sv 0)); [discriminate|].
       bind_as Em as q Eq. bind_as Em as nn En. inversion Em; constructor.
     + destruct mm as [r|]; [|discriminate].
-      bind_as Em as c0 Ec0. bind_as Em as txs Et. inversion Em; subst.
+      destruct (negb (Qcltb calc 0)); [discriminate|].
+      bind_as Em as txs Et. inversion Em; subst.
       eapply gen_sfla_sd; eauto.
   - destruct sp; [discriminate|]. inversion H; constructor.
 Qed.
